@@ -45,6 +45,8 @@
     whose size is EXACTLY the written tokens (none for `[]`; C14's array-size position) and leaves
     the following token in the stream.
 -/
+import CxxModel.Theorems.DeclGenItems
+import CxxModel.Theorems.WholeParse
 import CxxModel.Interp
 import CxxModel.Tables
 import CxxModel.Parser.Decl
@@ -230,6 +232,98 @@ theorem C02_array_declarator (env : Env) (F : Nat) (ob : CTok) (dtype : DType) (
         (w', .ok (.array dtype (if content.isEmpty then none else some (valueOf content)))) ∧
       SameParse w w' ∧ tokenEofOk env.cfg w'.buf = .ok (some t', b') ∧ t'.type = nx.type ∧ t'.value = nx.value :=
   parseArrayType_one env F ob dtype content cb nx w bmid b' hob hnr hn hcb hy htnx hnx hF
+
+end
+
+
+section
+open P
+
+/-- **cv-qualified type specifiers**: ANY number of `const` / `volatile` tokens before and after a name that
+    `_parse_pqname` reads (`NameSpecR`) is read by `_parse_type` as that name with `const` set iff a `const` was
+    written and `volatile` set iff a `volatile` was written, for every stream and parser state, leaving the
+    declarator's first token next -/
+theorem C02_cv_type (env : Env) (F D : Nat) (pre ntoks post : List Tok) (segs : List PQSeg)
+    (hname : NameSpecR env F D ntoks segs)
+    (hpre : ∀ k ∈ pre, isCv k.type = true) (hpost : ∀ k ∈ post, isCv k.type = true)
+    (hF : pre.length + post.length + 3 ≤ F) :
+    TypeSpecR env F D (pre ++ ntoks ++ post) segs (cvConst pre || cvConst post) (cvVol pre || cvVol post) :=
+  typeSpecR_cv env F D pre ntoks post segs hname hpre hpost hF
+
+/-- qualified names of identifiers are names in that sense … -/
+theorem C02_name_plain (env : Env) (F D : Nat) (first : Tok) (pairs : List (Tok × Tok))
+    (hty : first.type = "NAME") (hpv : plainVal first.value = true) (hnc : Gen.nameCompoundStart.contains first.value = false)
+    (hall : ∀ p ∈ pairs, p.1.type = "DBL_COLON" ∧ p.2.type = "NAME" ∧ plainVal p.2.value = true)
+    (hF : pairs.length + 1 ≤ F) :
+    NameSpecR env F D (first :: pairs.flatMap (fun p => [p.1, p.2]))
+      (.name first.value none :: pairs.map (fun p => .name p.2.value none)) :=
+  nameSpecR_plain env F D first pairs hty hpv hnc hall hF
+
+/-- … and so are fundamental types: one keyword, or a group of the compound keywords of any length, named by the
+    keywords joined with single blanks -/
+theorem C02_name_fundamental (env : Env) (F D : Nat) (first : Tok) (ks : List Tok)
+    (hkw : first.type = first.value) (hfund : Gen.fundamentals.contains first.value = true)
+    (hks : if Gen.compoundFundamentals.contains first.value then ∀ k ∈ ks, Gen.compoundFundamentals.contains k.type = true else ks = [])
+    (hF : ks.length + 1 ≤ F) :
+    NameSpecR env F D (first :: ks) [.fund (joinWith " " (first.value :: ks.map (·.value)))] :=
+  nameSpecR_fund env F D first ks hkw hfund hks hF
+
+/-- **`S ptr-ops x ;` through `parse()`'s loop, for ANY type specifier `S`** (`TypeSpecR`): exactly ONE `on_variable`
+    carrying the name `x` and the type the pointer chain denotes over the type `S` denotes (with its cv flags) -/
+theorem C02_cv_variable (env : Env) (hp : RulesProgress env.cfg = true) (F D : Nat) (w : World)
+    (toks : List Tok) (first : Tok) (trest : List Tok) (segs : List PQSeg) (cst vol : Bool)
+    (ops : List Tok) (x semi : Tok) (d1 : DType) (b1 b0 bmid bx b' : Buf)
+    (blk : Block) (rest : List Block) (hstack : w.stack = blk :: rest) (hk : blk.hdr.kind ≠ .cls)
+    (hmu : w.muted = false) (hfa : ¬ env.faultAt = some w.delivered)
+    (hspec : TypeSpecR env F D toks segs cst vol) (htoks : toks = first :: trest) (hfirst : specFirst first.type = true)
+    (htok : tokenEofOk env.cfg w.buf = .ok (some first, b1))
+    (hy0 : Yields env.cfg b1 trest b0)
+    (hops : opsHeadOk ops = true) (hopsv : ∀ o ∈ ops, o.value ≠ "auto")
+    (hy : Yields env.cfg b0 ops bmid)
+    (ha : applyPtrOps (.type (.mk segs none false) cst vol) (ops.map (·.type)) = some d1)
+    (htx : tokenEofOk env.cfg bmid = .ok (some x, bx)) (hx : x.type = "NAME") (hxv : identVal x.value = true)
+    (hsemi : tokenEofOk env.cfg bx = .ok (some semi, b')) (hs : semi.type = ";")
+    (hF : ops.length + 2 ≤ F) :
+    ∃ (d : Option String) (bD : Buf) (w7 : World) (ct : CTok) (dox : Option String) (ev : Event),
+      getDoxygen env.cfg env.mcRe w.buf = .ok (d, bD) ∧
+      interp env (mainBody F (core F (D + 1 + 1)) none) w = (w7, .ok (.inl none)) ∧
+      SigEq b' w7.buf ∧ ct.value = first.value ∧ w7.stack = { blk with loc := .tok ct.sidx } :: rest ∧
+      w7.events = w.events ++ [ev] ∧ ev.kind = .item (.variable (plainVariable x d1 dox)) ∧
+      ev.stateId = blk.id ∧ ev.parentId = rest.head?.map (·.id) ∧ (∀ dd, d = some dd → dox = some dd) ∧
+      w7.delivered = w.delivered + 1 ∧ w7.anon = w.anon ∧ w7.muted = false ∧ w7.nextId = w.nextId :=
+  toplevel_variable_gen env hp F D w toks first trest segs cst vol ops x semi d1 b1 b0 bmid bx b' blk rest hstack hk hmu hfa
+    hspec htoks hfirst htok hy0 hops hopsv hy ha htx hx hxv hsemi hs hF
+
+/-- the first tokens of such specifiers have no handler of their own in `parse()`'s dispatch table and are not in
+    the keep-doc set (decided over the regenerated tables) -/
+theorem C02_spec_first_tokens : ∀ ty ∈ "NAME" :: "const" :: "volatile" :: Gen.fundamentals, specFirst ty = true := specFirst_ok
+
+/-! non-vacuity: `const unsigned long volatile * const p ;` is a `SpecDeclToks` that satisfies `OK`, and the
+    corresponding `Item.variableGen` reads exactly those tokens from a stream that holds them -/
+section nonvacuity
+private def tk (ty v : String) : Tok := { type := ty, value := v, loc := default, sidx := 0 }
+
+private def cvDecl : SpecDeclToks :=
+  { spec := [tk "const" "const", tk "unsigned" "unsigned", tk "long" "long", tk "volatile" "volatile"],
+    segs := [.fund "unsigned long"], cst := true, vol := true,
+    ops := [tk "*" "*", tk "const" "const"], x := tk "NAME" "p", semi := tk ";" ";",
+    d1 := .ptr (.type (.mk [.fund "unsigned long"] none false) true true) true false }
+
+private theorem cvDecl_ok (env : Env) (F D : Nat) (hF : 5 ≤ F) : cvDecl.OK env F D := by
+  refine ⟨?_, ⟨_, _, rfl, by decide⟩, by decide, by decide, rfl, rfl, by decide, rfl, by show 2 + 2 ≤ F; omega⟩
+  have h := typeSpecR_cv env F D [tk "const" "const"] [tk "unsigned" "unsigned", tk "long" "long"] [tk "volatile" "volatile"]
+    [.fund "unsigned long"]
+    (nameSpecR_fund env F D (tk "unsigned" "unsigned") [tk "long" "long"] rfl (by decide) (by decide) (by show 1 + 1 ≤ F; omega))
+    (by decide) (by decide) (by show 1 + 1 + 3 ≤ F; omega)
+  exact h
+
+example (env : Env) (hp : RulesProgress env.cfg = true) (hnf : env.faultAt = none) (F D : Nat) (hF : 5 ≤ F) (lex : LexState) :
+    ∃ bE, (Item.variableGen env hp hnf F D cvDecl).At
+      { tokbuf := [tk "const" "const", tk "unsigned" "unsigned", tk "long" "long", tk "volatile" "volatile", tk "*" "*",
+          tk "const" "const", tk "NAME" "p", tk ";" ";"], lex := lex, bounded := true } bE :=
+  ⟨{ tokbuf := [], lex := lex, bounded := true }, cvDecl_ok env F (D + 1 + 1) hF,
+    Yields.of_tokbuf env.cfg lex true cvDecl.toks [] (by decide)⟩
+end nonvacuity
 
 end
 
